@@ -61,7 +61,7 @@ MUTANTS = [
     dict(name="running_state.step += 1 dropped", edits=[(R_, "                    self.running_state.step += 1\n", "")]),
     dict(name="clear() moved before the save", edits=[(R_, "                        if save:\n                            save_step(i)\n                        self.running_state.clear()", "                        self.running_state.clear()\n                        if save:\n                            save_step(i)")]),
     dict(name="time advanced by the previous dt", edits=[(R_, "                    self.dt = new_dt\n                    self.running_state.step += 1\n                    self.time += self.dt", "                    self.time += self.dt\n                    self.dt = new_dt\n                    self.running_state.step += 1")]),
-    dict(name="clear() zeroes in place up to step only", edits=[(R_, "        self.step = 0\n        for name, size in self.names_and_sizes.items():\n            self.values[name] = self.array_module.zeros((size, self.buffer_size))",
+    dict(name="benign: clear() zeroes in place up to step only", expect="pass", edits=[(R_, "        self.step = 0\n        for name, size in self.names_and_sizes.items():\n            self.values[name] = self.array_module.zeros((size, self.buffer_size))",
                                                                   "        for name in self.names_and_sizes:\n            self.values[name][:, : self.step] = 0\n        self.step = 0")]),
     dict(name="recorded dt is the tentative dt", edits=[(S_, "            if screening_iteration == 0:\n                # Find a new time step only for the first screening iteration.\n                dt = self.tentative_dt\n", "            if screening_iteration == 0:\n                # Find a new time step only for the first screening iteration.\n                dt = self.tentative_dt\n                running_state.append(\"dt\", dt)\n"),
                                                         (S_, "        running_state.append(\"dt\", dt)\n        if self.probe_points is not None:", "        if self.probe_points is not None:")]),
